@@ -13,7 +13,8 @@ RULE = ("Model-based histories: Hypothesis draws a router configuration (fallbac
         "None) / startTestRun / stopTestRun / status operations whose legality is tracked while drawing; "
         "every sink's log is compared with a reference router (prefix rule > id rule > fallback > raise). "
         "Second generator: events pushed through 1..3 nested StreamToQueue(code) and popped by nested "
-        "routers with consuming rules must arrive unchanged. Non-trivial: an event matched by both a prefix "
+        "routers with consuming rules must arrive unchanged. Also: any positional prefix of status(), omitted defaults and flags given as 1/0, sinks that compare equal and cannot be hashed, rules added mid-run must have been started when add_rule returns. "
+        "Non-trivial: an event matched by both a prefix "
         "rule and an id rule, or a route code of >= 2 segments through a consuming rule, or a rule added "
         "mid-run; distinct = distinct canonical history.")
 ASSUMPTIONS = [
